@@ -8,7 +8,7 @@ package compiler
 // package-level IR constants / runtime function handles: assigned once during set-up, never afterwards
 immutable g:compiler.zero g:compiler.ddp_runtime_error_irfun g:compiler.ddpint
 // the AST is not rewritten during code generation
-immutable ast.FuncDecl ast.BinaryExpr ast.Indexing ast.UnaryExpr ast.TernaryExpr ast.AssignStmt ast.Module.Ast ast.Ast.Faulty compiler.compiler.ddpModule
+immutable ast.FuncDecl ast.FuncCall []ast.ParameterInfo ast.BinaryExpr ast.Indexing ast.UnaryExpr ast.TernaryExpr ast.AssignStmt ast.Module.Ast ast.Ast.Faulty compiler.compiler.ddpModule
 // the compiler's type descriptors and IR constants are created once during set-up
 immutable compiler.compiler.ddpinttyp compiler.compiler.ddpfloattyp compiler.compiler.ddpbytetyp compiler.compiler.ddpbooltyp compiler.compiler.ddpchartyp
 immutable g:compiler.zerof g:compiler.all_ones g:compiler.all_ones8 g:compiler.ddpfloat g:compiler.ddpbyte g:compiler.ddpbool g:compiler.ddpchar g:compiler.zero8
@@ -271,6 +271,9 @@ func (*compiler).toIrType [C18]
   // by value exactly for the five primitive classes (and "nothing")
   ensures !isListT(ddpType) && 1 <= tcls(ddpType) && tcls(ddpType) <= 5 ==> result.IsPrimitive()
   ensures isListT(ddpType) || tcls(ddpType) == 6 || tcls(ddpType) == 7 || isStructT(ddpType) ==> !result.IsPrimitive()
+  // (the same, in the form call sites use: for the classes of the published representation, primitive <=> by value)
+  ensures (!isListT(ddpType) && 1 <= tcls(ddpType) && tcls(ddpType) <= 5) || isListT(ddpType) || tcls(ddpType) == 6 || tcls(ddpType) == 7 || isStructT(ddpType) ==>
+            (result.IsPrimitive() <==> (!isListT(ddpType) && 1 <= tcls(ddpType) && tcls(ddpType) <= 5))
   ensures !isListT(ddpType) && isStructT(ddpType) ==> result == box(c.structTypes[ddptypes.tnorm(ddpType).(*ddptypes.StructType)])
 
 // IR type of a value of the described type / of a pointer to it
@@ -463,4 +466,24 @@ func (*compiler).exitScope [C05]
   callsite freeNonPrimitive requires !v.isRef && !v.protected && arg1 == v.val && arg2 == v.typ
   callsite freeTemporaries requires arg1 == scp && !arg2
   ensures result == old(scp.enclosing)
+
+// C18/C05: after a call of an extern function the caller releases each of its by-value arguments exactly once:
+// one free call per parameter that is not a Referenz and whose type is not primitive (the callee frees nothing)
+spec nonPrimT(t ddptypes.Type) bool := isListT(t) || tcls(t) == 6 || tcls(t) == 7 || isStructT(t)
+func (*compiler).VisitFuncCall [C18, C05]
+  requires c != nil && c.cbb != nil && e != nil && e.Func != nil
+  // ASSUMED AST link (as for VisitFuncDecl)
+  requires e.Func.GenericInstantiation != nil ==> e.Func.GenericInstantiation.GenericDecl != nil
+  // every parameter type is one of the classes of the published representation
+  requires forall k int :: 0 <= k && k < len(e.Func.Parameters) ==> byValueT(e.Func.Parameters[k].Type.Type) || nonPrimT(e.Func.Parameters[k].Type.Type)
+  // LC: all arguments are built, the call itself has not been emitted yet
+  at LC before call commentNode
+  ensures reached(LC) && ast.IsExternFunc(e.Func) ==>
+            $ncalls == at(LC, $ncalls) + 1 +
+              count(k, 0, len(e.Func.Parameters), !e.Func.Parameters[k].Type.IsReference && nonPrimT(e.Func.Parameters[k].Type.Type))
+  // a function defined in DDP frees its parameters itself: the caller emits only the call
+  ensures reached(LC) && !ast.IsExternFunc(e.Func) ==> $ncalls == at(LC, $ncalls) + 1
+  loop 1 invariant rangeindex1 < len(e.Func.Parameters) && reached(LC) && ast.IsExternFunc(e.Func)
+  loop 1 invariant $ncalls == at(LC, $ncalls) + 1 +
+              count(k, 0, rangeindex1 + 1, !e.Func.Parameters[k].Type.IsReference && nonPrimT(e.Func.Parameters[k].Type.Type))
 @*/
